@@ -4,6 +4,7 @@ import asyncio
 import copy
 import datetime as _dt
 import functools
+import hashlib
 
 from simkit import tlvref
 from simkit.core import World, HarnessError, innermost_ndn_frame, exc_brief
@@ -176,8 +177,19 @@ def compiled(depth):
     return compile_lvs(SCHEMAS[depth])
 
 
+@functools.lru_cache(maxsize=64)
+def _derived_ec(n):
+    """any number of distinct P-256 keys, derived from their number (nothing random: scenarios must replay)"""
+    from Cryptodome.PublicKey import ECC
+    d = int.from_bytes(hashlib.sha256(b'verif derived key %d' % n).digest(), 'big') % (2 ** 255) + 1
+    k = ECC.construct(curve='P-256', d=d)
+    return bytes(k.export_key(format='DER', use_pkcs8=False)), bytes(k.public_key().export_key(format='DER'))
+
+
 def key_material(spec):
-    """spec: ['ec', i] | ['rsa', i] -> (private DER, public DER)"""
+    """spec: ['ec', i] | ['rsa', i] | ['ed', i] | ['ecd', n] -> (private DER, public DER)"""
+    if spec[0] == 'ecd':
+        return _derived_ec(spec[1])
     p = pool()
     kind, i = spec
     rec = p[kind][i % len(p[kind])]
@@ -186,7 +198,7 @@ def key_material(spec):
 
 def mk_signer(spec, locator):
     prv, _pub = key_material(spec)
-    if spec[0] == 'ec':
+    if spec[0] in ('ec', 'ecd'):
         return sec.Sha256WithEcdsaSigner(locator, prv)
     if spec[0] == 'ed':
         return sec.Ed25519Signer(locator, prv)
@@ -706,6 +718,11 @@ class ChainWorld(World):
 def generate(rng, seed, tier='quick'):
     depth = rng.choice([1, 2, 2, 3, 3, 4])
     users = ['alice', 'bob']
+    crowd = rng.random() < 0.04
+    if crowd:
+        # many authors, each with a key of its own: one validator ends up knowing some twenty certificates
+        depth = rng.choice([2, 3])
+        users = users + [f'u{i}' for i in range(rng.choice([15, 18, 30]))]
     members = {}
     free = {'ec': list(range(0, 9)), 'rsa': list(range(0, 5)), 'ed': [0, 1]}     # ec#9, rsa#5 and ed#2 belong to the attacker      # distinct key material for every label
     rng.shuffle(free['ec'])
@@ -721,7 +738,8 @@ def generate(rng, seed, tier='quick'):
     for lvl in LEVELS[depth]:
         members[lvl] = users if lvl == 'author' else [rng.choice(['m1', 'm2'])]
         for m in members[lvl]:
-            keys[f'{lvl}:{m}'] = fresh(rng.choice(['ec', 'ec', 'ec', 'rsa']))
+            keys[f'{lvl}:{m}'] = ['ecd', int(m[1:])] if (lvl == 'author' and m[0] == 'u' and m[1:].isdigit()) else \
+                fresh(rng.choice(['ec', 'ec', 'ec', 'rsa']))
     labels = [k for k in keys if ':' in k]
     deviation = None
     x = rng.random()
@@ -811,7 +829,21 @@ def generate(rng, seed, tier='quick'):
             ops.append({'at': t, 'op': 'store', 'change': rng.choice(['withdraw', 'attacker', 'attacker']),
                         'label': rng.choice(chain_labels), 'by': rng.choice([['ec', 9], ['ec', 9], ['rsa', 5]])})
             t += 1000
-    two_roots = depth == 2 and rng.random() < 0.2
+    if crowd:
+        deviation = None
+        inst = dict(next(o for o in ops if o['op'] == 'instance'), at=1000)
+        for k_ in ('anchor_forged', 'anchor_is', 'storage'):
+            inst.pop(k_, None)
+        inst['anchor'] = 'root'
+        ops = [inst]
+        t, vid = 2000, 0
+        order = list(users)
+        rng.shuffle(order)
+        for u in order + order[:4]:
+            vid += 1
+            ops.append({'at': t, 'op': 'validate', 'vid': vid, 'iid': inst['iid'], 'packet': {'user': u, 'title': f't{vid}'}})
+            t += 1_000_000
+    two_roots = depth == 2 and rng.random() < 0.2 and not crowd
     extra = {}
     fetch_delay = rng.choice([0, 100, 5000])
     vals = [o for o in ops if o['op'] == 'validate']
